@@ -237,6 +237,7 @@ func safeCheck[C any](p Prop[C], c C, r *Rec) (err error) {
 
 // Main is the body of every TestCxx function.
 func Main[C any](t *testing.T, p Prop[C]) {
+	currentProp = p.ID
 	cfg := LoadConfig()
 	start := time.Now()
 	rec := NewRec()
@@ -414,6 +415,7 @@ type Finding struct {
 	ID       string
 	Repro    string // path relative to /verif
 	Avoid    []string
+	Also     []string // other properties whose generators avoid the trigger too (they would observe the same root cause)
 	Commit   string
 	What     string
 }
@@ -467,6 +469,8 @@ func Findings(root string) []Finding {
 					f.Repro = v
 				case "avoid":
 					f.Avoid = strings.Split(v, ",")
+				case "also":
+					f.Also = strings.Split(v, ",")
 				case "commit":
 					f.Commit = v
 				}
@@ -477,11 +481,26 @@ func Findings(root string) []Finding {
 	return findingsAll
 }
 
-// Avoided returns the set of generator features gated by *open* findings.
+// currentProp is the property being checked by this process (set by Main).
+var currentProp string
+
+// Avoided returns the generator features gated by the *open* findings that the current property can
+// observe. A finding without `also=` gates its feature for every property (several oracles usually see one
+// defect); a finding with an `also=` list gates it only for its own property and the listed ones, the
+// other properties keep the feature in their domain.
 func Avoided(root string) map[string]string {
 	out := map[string]string{}
 	for _, f := range Findings(root) {
 		if f.Fixed {
+			continue
+		}
+		applies := f.Property == currentProp || currentProp == "" || len(f.Also) == 0
+		for _, a := range f.Also {
+			if a == currentProp {
+				applies = true
+			}
+		}
+		if !applies {
 			continue
 		}
 		for _, a := range f.Avoid {
